@@ -81,9 +81,15 @@ def _run(res, work):
         k5 = rep["known_libclang_null_tu"]
         if k5["probe_in_region"] or k5["mutant_hits"]:
             res.known("libclang_null_translation_unit: `bindgen x.h -- -std=c99x` panics in BindgenContext::new (`libclang error; possible causes include ...`) instead of returning an error value; %d mutants hit the same region" % k5["mutant_hits"])
+        k6 = rep["known_integer_complex"]
+        if k6["probe_in_region"] or k6["hits"]:
+            res.known("integer_complex_type: `_Complex int x;` panics (`Non floating-type complex?`, ir/context.rs); inside a libclang visitor callback the panic cannot unwind and the process aborts (SIGABRT); %d mutants / option sets in the region, %d of them aborts" % (k6["hits"], k6["of_which_process_aborts"]))
+        k7 = rep["known_opaque_debug_assert"]
+        if k7["probe_in_region"] or k7["random_option_set_hits"]:
+            res.known("opaque_with_fields_debug_assert: --opaque-type '.*' --no-recursive-allowlist on a class with a base class trips debug_assert!(fields.is_empty()) in codegen (debug builds only); %d random option sets in the region" % k7["random_option_set_hits"])
         k4 = rep["known_explicit_padding_union"]
         if k4["probe_in_region"] or k4["random_option_set_hits"]:
-            res.known("explicit_padding_union_as_struct: `union U { int a; int b : 9; };` with --explicit-padding --disable-untagged-union panics in struct_layout.rs (subtract with overflow); %d random option sets hit the same region" % k4["random_option_set_hits"])
+            res.known("explicit_padding_union_as_struct: `union U { int a; int b : 9; };` with --explicit-padding (union emitted as a struct: --disable-untagged-union or a non-Copy member) panics in struct_layout.rs (subtract with overflow); %d random option sets hit the same region" % k4["random_option_set_hits"])
 
     for kind, what, log in broken:
         detail = what + ("\nunclassified panic sites:\n  " + "\n  ".join(missing[:25]) if missing else "") + "\n" + log[-1500:]
